@@ -3,7 +3,7 @@ from .. import trees
 from ..common import eqstar
 
 PLAN = {
-    "quick": {"shards": 4, "cases": 700, "min_nontrivial": 1500, "budget_s": 200},
+    "quick": {"shards": 8, "cases": 1200, "min_nontrivial": 5000, "budget_s": 300},
     "thorough": {"shards": 16, "cases": 9000, "min_nontrivial": 60000, "budget_s": 1400},
 }
 RULE = ("random plain-data trees (depth <= 5, <= 40 leaves) over null/bool/int (32/64-bit edges, big)/float (NaN, "
